@@ -17,10 +17,14 @@ use whirlpool::math::sqrt_price_from_tick_index;
 
 pub struct C10 {
     pub sample_every: u32,
+    /// per (pool, initialized tick): is the price above it (its net counted in) after the last crossing the
+    /// monitor saw? A tick is crossed alternately downwards and upwards; entries are forgotten whenever
+    /// something other than a single swap may have touched the tick.
+    side_above: std::collections::BTreeMap<(Pubkey, i32), bool>,
 }
 impl Default for C10 {
     fn default() -> Self {
-        C10 { sample_every: 2 }
+        C10 { sample_every: 2, side_above: Default::default() }
     }
 }
 
@@ -105,6 +109,25 @@ fn traversal(pre_ticks: &BTreeMap<i32, codec::Tick>, pre: &codec::Pool, post: &c
 
 impl Monitor for C10 {
     fn after(&mut self, w: &mut World, obs: &Obs, acc: &mut Acc) {
+        if obs.ok() && parse_swap(&obs.ix).is_none() {
+            // anything but a single swap: forget what it may have touched
+            let name = obs.ix.name;
+            if name.starts_with("two_hop") {
+                let (p1, p2) = (obs.ix.key("whirlpool_one"), obs.ix.key("whirlpool_two"));
+                self.side_above.retain(|(p, _), _| *p != p1 && *p != p2);
+            } else if name.contains("liquidity") || name.contains("position") {
+                let pool = obs.ix.metas.iter().find(|m| m.name == "whirlpool").map(|m| m.key);
+                let pos = obs.ix.metas.iter().find(|m| m.name == "position").map(|m| m.key);
+                if let (Some(pool), Some(pos)) = (pool, pos) {
+                    for bk in [&obs.pre, &w.bank] {
+                        if let Some(p) = bk.data(&pos).and_then(codec::Position::decode) {
+                            self.side_above.remove(&(pool, p.tick_lower_index));
+                            self.side_above.remove(&(pool, p.tick_upper_index));
+                        }
+                    }
+                }
+            }
+        }
         let Some(c) = parse_swap(&obs.ix) else { return };
         if !obs.ok() {
             return;
@@ -133,6 +156,17 @@ impl Monitor for C10 {
         acc.add("initialized_ticks_crossed", crossed.len() as u64);
         if let Some((sig, d)) = v {
             fail(acc, sig, d);
+        }
+        // history level: the same initialized tick is never crossed twice in the same direction without a
+        // crossing the other way in between
+        for t in &crossed {
+            let above_after = !c.a_to_b;
+            if let Some(above) = self.side_above.insert((c.pool, *t), above_after) {
+                acc.count("recrossings_checked");
+                if above == above_after {
+                    fail(acc, "tick_crossed_twice_in_one_direction", format!("initialized tick {t} is crossed {} although the previous crossing of this tick went the same way", if c.a_to_b { "downwards" } else { "upwards" }));
+                }
+            }
         }
         // placement coverage
         let tia = 88 * sp as i32;
